@@ -27,6 +27,7 @@ CODE_DOCS = [
     "```\na\x0bb\x1cc\x85d e\n```\n", "```\n\x0b```\n```\n", "~~~ info\n\ttab\n~~~\n", "```\nends with blank\n\n\n```\n",
     "`code` ``a`b`` `` `x `` ` lead` `a  b`\n", "<span title=\"it's\">x</span> and <!-- \"c\" ... --> and {% t a=\"it's ...\" %}\n",
     "[l](http://x.org/it's_a \"T's ...\") ![i](http://u/... 'q') <http://a.b/c'd> www.x.org/it's\n\n[r]: http://r.org/... \"R's ... t\"\n",
+    "```text\n\n```\n", "> ```\n>\n> ```\n", "- ```\n\n  ```\n", "```\n\n\n```\n", "~~~\n \n~~~\n",
     "1. ```\n   in list\n   ```\n2. x\n", "```\n{% tag %}\n- not a list\n| no | table |\n{% /tag %}\n```\n",
 ]
 
@@ -61,7 +62,10 @@ def extract(text: str) -> list:
         for e in es:
             k = type(e).__name__
             if k in ("FencedCode", "CustomFencedCode"):
-                out.append(("code", e.lang or "", (e.extra or "") if e.lang else "", e.children[0].children.rstrip("\n").split("\n")))
+                # fenced content is compared exactly (blank lines included); only a missing final newline of an
+                # unclosed fence at end of input is completed
+                c = e.children[0].children
+                out.append(("code", e.lang or "", (e.extra or "") if e.lang else "", (c if c.endswith("\n") or not c else c + "\n").split("\n")[:-1]))
             elif k == "CodeBlock":
                 out.append(("code", "", "", e.children[0].children.rstrip("\n").split("\n")))
             elif k == "LinkRefDef":
@@ -115,8 +119,8 @@ def oracle(ctx: Ctx, docs, label: str, full_product: bool) -> None:
 def attribute(doc: str, xa, xb, o) -> str | None:
     if isinstance(xa, tuple) and xa[0] == "code" and isinstance(xb, tuple) and xb[0] == "code":
         la, lb = xa[3], xb[3]
-        if "\n".join(lb) == "\n".join(la).rstrip("\n") or [l for l in la if l.strip()] == [l for l in lb if l.strip()] and len(la) > len(lb) and not any(la[len(lb):]):
-            return "C04-code-trailing-blank-lines"
+        if xa[:3] == xb[:3] and len(la) == len(lb) and all(x == y or (x.strip(" \t") == "" and y == "") for x, y in zip(la, lb)):
+            return "C04-whitespace-only-code-lines-emptied"
     # counterfactual attribution shared with C01: remove the triggers of the known findings and look again
     from flowmark import reformat_text
     from props import c01
@@ -143,6 +147,8 @@ def tie_transform(ctx: Ctx, n: int) -> None:
     rng = ctx.rng
     ops, reals, cases = [], [], []
     docs = list(CODE_DOCS) + ["**Setext Bold**\n===\n\n# ****x****\n\n## ***bi***\n\n### **a** b\n\n> # **q**\n\n- # **l**\n\n[^f]: # **in note**\n"]
+    from props import c10
+    docs += c10.HEADING_DOCS
     docs += [mdgen.gen_document(rng, quotes=True, ellipses=True, tags=(i % 2 == 0), html=True, bold_headings=True) for i in range(n)]
     for i, doc in enumerate(docs):
         for kind in (("quotes", "ellipses", "unbold") if i < len(CODE_DOCS) + 1 else (("quotes", "ellipses", "unbold")[i % 3],)):
@@ -187,6 +193,36 @@ def replay_findings(ctx: Ctx) -> None:
             ctx.known_replay(fid, extract(c["doc"].strip() + "\n") != extract(out))
 
 
+STRESS_SPANS = ["``a ` - b``", "`` ` > q``", "`- x`", "`1. x`", "``# ` h``", "`+ p`", "``` `` * `` ```", "{% t - x %}", "<!-- - c -->", "<b a='- x'>",
+                "{{ v | - }}", "``= ` =``", "`--- x`", "``1) ` y``", "[- l](http://u/-)", "`> q`"]
+
+
+def span_stress(ctx: Ctx, n: int) -> None:
+    """spans whose content would be a block marker at a line start, swept over every width: a span that is not
+    kept atomic gets an escape written into it at some width"""
+    from flowmark import reformat_text
+    import gen
+    rng = ctx.rng
+    for i in range(n):
+        ws = []
+        for _ in range(rng.randint(4, 14)):
+            ws.append(rng.choice(STRESS_SPANS) if rng.random() < 0.5 else rng.choice(gen.PLAIN_WORDS))
+        doc = rng.choice(["", "- ", "> ", "1. "]) + " ".join(ws) + "\n"
+        a = extract(doc)
+        for W in range(8, 41):
+            sem = (W + i) % 2 == 0
+            out = reformat_text(doc, width=W, semantic=sem, cleanups=False, smartquotes=False, ellipses=False)
+            ctx.count(["stress", doc, W, sem], nontrivial=True, sample=(W == 20 and i % 17 == 0))
+            ctx.bump("span-stress")
+            b = extract(out)
+            if a != b:
+                k = next((j for j, (x, y) in enumerate(zip(a, b)) if x != y), min(len(a), len(b)))
+                ctx.fail("VERBATIM: a non-prose span differs between the input and the formatted output",
+                         {"doc": doc, "opts": dict(width=W, semantic=sem, cleanups=False, smartquotes=False, ellipses=False)},
+                         {"in": str(a[k] if k < len(a) else None), "out": str(b[k] if k < len(b) else None)})
+                return
+
+
 def run(ctx: Ctx) -> None:
     driver_ok = lean_obligations(ctx)
     replay_findings(ctx)
@@ -194,6 +230,7 @@ def run(ctx: Ctx) -> None:
         ctx.guard("tie render", rendertie.tie_render, ctx.scale(150, 3000))
         ctx.guard("tie transform", tie_transform, ctx.scale(150, 3000))
     oracle(ctx, CODE_DOCS, "special", full_product=True)
+    span_stress(ctx, ctx.scale(60, 1500))
     rng = ctx.rng
     docs = [mdgen.gen_document(rng, quotes=True, ellipses=True, tags=(i % 2 == 0), html=(i % 3 == 0), bold_headings=True) for i in range(ctx.scale(400, 6000))]
     oracle(ctx, docs, "generated", full_product=False)
